@@ -9,7 +9,12 @@
     and fee totals = sums over the contents, full-hash lookup = membership,
     short-hash lookup never returns a transaction outside the pool or one with
     another short hash.
-    [spec_short]: every pooled transaction is found under its short hash.
+    [spec_short]: the short-hash lookup of every pooled transaction is
+    non-empty.  The index holds one transaction per short hash, so together with
+    [spec_base] (what the lookup returns is pooled and has that short hash) this
+    says: a pooled transaction is found under its short hash unless the lookup
+    returns another pooled transaction with the same short hash; when no other
+    pooled transaction shares its short hash it is found itself.
     [spec_block]: after a block was added none of its transactions is pooled. *)
 From Coq Require Import List ZArith NArith Bool.
 From C33 Require Import C21.Model.
@@ -83,10 +88,10 @@ Definition spec_base (sh : N -> N) (c : config) (txs : list tx) (senders hashes 
 
 Definition short_fail (w : list N) (x : N * option N) : bool :=
   match x with (h, s) =>
-    mem_n h w && negb (match s with Some h' => N.eqb h' h | None => false end)
+    mem_n h w && match s with Some _ => false | None => true end
   end.
 
-(** the hashes that are pooled but not found under their short hash *)
+(** the hashes that are pooled while the lookup of their short hash is empty *)
 Definition short_failures (hashes : list N) (o : obs) : list N :=
   map fst (filter (short_fail (o_walk o)) (combine hashes (o_short o))).
 
